@@ -52,6 +52,11 @@ func fixedCases() []corr.Case {
 		mk("fixed-nil", "new tiny 3", "set 4242 0 1", "exist 4242", "get 4242", "set 1 0 1", "get 1", "peek 1", "sgr 2 0 1", "sia 3 0 1", "items", "set 4 0 1", "del 4242", "keys", "set 1 7 1", "get 1"),
 		mk("fixed-keytypes", "new lru 12", "set 0 1 1", "set 1 2 1", "set 2 3 1", "set 3 4 1", "set 4 5 1", "set 5 6 1", "set 70000 7 1", "get 3", "peek 4", "exist 5", "del 1", "del 70000", "keys", "items", "stats"),
 	)
+	// a store that fails while sizing its value (Size() panics / nil value) must leave the cache untouched
+	out = append(out,
+		mk("fixed-failed-set", "new lru 5", "set 0 1 1", "set 1 2 p", "keys", "exist 1", "get 1", "sgr 2 3 p", "sia 3 4 p", "stats", "sia 0 9 p", "keys", "set 0 5 p", "items",
+			"set 4 0 1", "sgr 4 0 1", "sia 4 0 1", "sia 0 0 1", "stats", "set 4 6 2", "set 5 7 2", "set 6 8 2", "keys", "stats"),
+		mk("fixed-failed-set", "new tiny 3", "set 0 1 p", "new lru 0", "set 0 1 p", "stats", "wnew lru 4 2 8 mod", "set 0 1 p"))
 	// out-of-regime streams: the model follows the code also for negative sizes (size accounting drifts, Back() of an empty list)
 	out = append(out,
 		mk("fixed-negative", "new lru 1", "set 0 1 -5", "set 1 2 6", "stats", "del 0", "stats", "set 2 3 0", "stats"),
@@ -66,6 +71,7 @@ func fixedCases() []corr.Case {
 type gen struct {
 	r    *rng.R
 	line int
+	lru  bool // sized cache: values are sized, so a value may be nil or have a Size() that panics
 }
 
 func (g *gen) size(capacity int) int {
@@ -88,6 +94,14 @@ func (g *gen) op(keys, capacity int) string {
 	k := g.r.Intn(keys)
 	v := g.line
 	x := g.r.Intn(100)
+	if g.lru && x < 48 && g.r.Chance(1, 12) {
+		// the store fails while sizing the value: Size() panics, or the value is nil
+		op := g.r.Pick("set", "sgr", "sia")
+		if g.r.Bool() {
+			return fmt.Sprintf("%s %d %d p", op, k, v)
+		}
+		return fmt.Sprintf("%s %d 0 %d", op, k, g.r.Range(0, 3))
+	}
 	switch {
 	case x < 26:
 		return fmt.Sprintf("set %d %d %d", k, v, g.size(capacity))
@@ -119,6 +133,7 @@ func (g *gen) op(keys, capacity int) string {
 func genCase(r *rng.R, tier string, i int) corr.Case {
 	g := &gen{r: r}
 	kd := r.Pick("lru", "lru", "tiny")
+	g.lru = kd == "lru"
 	capacity := r.Range(0, 12)
 	n := r.Range(8, 40)
 	if tier != "quick" {
